@@ -1317,8 +1317,9 @@ impl Database {
             .collect();
 
         // the one-pass path rewrites the row only: it cannot serve statements that also have
-        // to maintain a secondary index on a modified column
+        // to maintain a secondary index on a modified column, nor build RETURNING rows
         let can_onepass = pk_lookup_info.is_some()
+            && update.returning.is_none()
             && unique_col_indices.is_empty()
             && !needs_old_row_for_secondary_index
             && !has_toast
